@@ -65,7 +65,7 @@ func levelProg(t *drive.Cmd, version bool) *Prog {
 	p := t.Prog
 	if version && t.Parent == nil {
 		q := *p
-		q.Opts = append([]*OptDecl{{Names: []string{"V", "version"}, Flag: true}}, p.Opts...)
+		q.Opts = append([]*OptDecl{{Names: strings.Fields(t.VersionOptNames()), Flag: true}}, p.Opts...)
 		p = &q
 	}
 	return gen.ImplicitProg(p)
@@ -152,8 +152,12 @@ type texp struct {
 func isHelp(s string) bool { return s == "-h" || s == "--help" }
 
 func expectTree(root *drive.Cmd, argv []string, version bool) texp {
-	if version && len(argv) > 0 && (argv[0] == "-V" || argv[0] == "--version") {
-		return texp{kind: "VERSION", node: root}
+	if version && len(argv) > 0 {
+		for _, d := range (&OptDecl{Names: strings.Fields(root.VersionOptNames())}).Dashed() {
+			if argv[0] == d {
+				return texp{kind: "VERSION", node: root}
+			}
+		}
 	}
 	cur := root
 	rest := argv
@@ -290,6 +294,9 @@ func treeFor(c *core.Ctx, tag string, per int, typed bool) (*drive.Cmd, bool) {
 		depth = 5
 	}
 	root := genTree(r, depth, &cnt, nil, "app", typed, version, deep)
+	if version {
+		root.VersionNames = []string{"V version", "V version", "version", "V", "V version ver", "W wersion"}[r.Intn(6)]
+	}
 	return root, version
 }
 
@@ -330,7 +337,7 @@ func checkRun(c *core.Ctx, e texp, o *drive.Obs, version bool) bool {
 			}
 			items, _ := gen.ReadAll(lp, e.segs[i])
 			for _, it := range items {
-				if it.Oc != nil && it.Oc.Opt.Names[0] == "V" {
+				if it.Oc != nil && it.Oc.Opt == lp.Opts[0] {
 					nb.Opts[it.Oc.Opt] = append(nb.Opts[it.Oc.Opt], it.Oc.Val)
 				}
 			}
@@ -748,10 +755,12 @@ func runC14(c *core.Ctx) {
 		tok := []string{"-h", "--help"}[c.R.Intn(2)]
 		switch {
 		case version && kindOfToken == 0:
-			argv = append([]string{[]string{"-V", "--version"}[c.R.Intn(2)]}, argv...)
+			vn := (&OptDecl{Names: strings.Fields(root.VersionOptNames())}).Dashed()
+			argv = append([]string{vn[c.R.Intn(len(vn))]}, argv...)
 			tok = ""
 		case version && kindOfToken == 1 && pos > 0:
-			tok = []string{"-V", "--version"}[c.R.Intn(2)] // not first: ordinary flag
+			vn := (&OptDecl{Names: strings.Fields(root.VersionOptNames())}).Dashed()
+			tok = vn[c.R.Intn(len(vn))] // not first: ordinary flag
 		}
 		if tok != "" {
 			argv = append(argv[:pos:pos], append([]string{tok}, argv[pos:]...)...)
